@@ -5,3 +5,6 @@ import Props.C12
 #print axioms Webauthn.Props.C12.not_certify
 #print axioms Webauthn.Props.C12.lenPrefixed_spec
 #print axioms Webauthn.Props.C12.beNat_len2
+#print axioms Webauthn.Props.C12.certinfo_exact
+#print axioms Webauthn.Props.C12.pubarea_rsa_exact
+#print axioms Webauthn.Props.C12.pubarea_ecc_exact
